@@ -10,7 +10,7 @@ Theorem C20_caller_pools_untouched_refuted :
   exists h o f p, wf_heap h /\ (p < length (h_pools h))%nat
                   /\ get_pool (fst (setup_tls h o f)) p <> get_pool h p.
 Proof.
-  exists (mkHeap [mkCfg false [] (Some 0%nat) 0] [[7]]), (mkOpts (Some 0%nat) false true false false),
+  exists (mkHeap [mkCfg false [] (Some 0%nat) 0 0] [[7]]), (mkOpts (Some 0%nat) false true false false),
          (mkFs (Some [8]) false), 0%nat.
   split.
   { intros a p. destruct a as [|[|a]]; cbn; intros H; inversion H; subst; cbn; lia. }
@@ -22,7 +22,7 @@ Qed.
 Lemma caller_pool_grows_even_on_error :
   exists h o f, snd (setup_tls h o f) = SErr EKeyPair /\ get_pool (fst (setup_tls h o f)) 0%nat <> get_pool h 0%nat.
 Proof.
-  exists (mkHeap [mkCfg false [] (Some 0%nat) 0] [[7]]), (mkOpts (Some 0%nat) false true true true),
+  exists (mkHeap [mkCfg false [] (Some 0%nat) 0 0] [[7]]), (mkOpts (Some 0%nat) false true true true),
          (mkFs (Some [8]) false).
   split; [vm_compute; reflexivity | vm_compute; discriminate].
 Qed.
